@@ -235,6 +235,8 @@ class Target:
             elif not (fr.session == 0 and self.ep.session is None):
                 # handle 0 while no session has been granted on this TCP connection is "before registration"
                 self.event("C11/session-handle", f"SendRRData with session {fr.session:#x}; granted on this TCP connection: {self.ep.session!r}")
+            if not connected and len(fr.body) > 22 and fr.body[16] in (0x54, 0x5B) and fr.body[17:22] == b"\x02\x20\x06\x24\x01":
+                self.event("C10/I1/forward-open-without-session", f"Forward Open sent with session handle {fr.session:#x} although no session is registered")
             return self._err(fr, 0x0064)
         try:
             iface, timeout, items = W.parse_cpf(fr.body)
@@ -260,6 +262,8 @@ class Target:
             body = W.build_cpf([(W.ITEM_NULL, b""), (W.ITEM_UNCONNECTED_DATA, rep)], timeout=0)
             return W.build_frame(fr.command, fr.session, body, context=fr.context)
         # connected
+        if not any(c.session == fr.session for c in self.connections.values()):
+            self.event("C10/I1/unitdata-without-connection", f"SendUnitData although no connection is open for session {fr.session:#x} (address item {ad.hex()!r})")
         if at != W.ITEM_CONNECTED_ADDR or len(ad) != 4:
             self.event("C11/cpf-address-item", f"SendUnitData address item type {at:#06x} length {len(ad)}")
             return self._err(fr, 0x0003)
@@ -269,7 +273,8 @@ class Target:
         cid = struct.unpack("<I", ad)[0]
         conn = self.connections.get(cid)
         if conn is None or conn.session != fr.session:
-            self.event("C10/I1/unitdata-without-connection", f"SendUnitData for connection id {cid:#x}; open: {[hex(c) for c in self.connections]}")
+            if any(c.session == fr.session for c in self.connections.values()):
+                self.event("C10/I1/unitdata-without-connection", f"SendUnitData for connection id {cid:#x}; open: {[hex(c) for c in self.connections]}")
             return b""  # a real target silently discards it
         if len(dd) < 2:
             self.event("C11/connected-data", "connected data item shorter than the sequence count")
